@@ -692,6 +692,7 @@ func genC15(c *Ctx) {
 	genC15Invite(c)
 	genC15RestrictedJoin(c)
 	genC15Make(c)
+	genC15Perform(c)
 }
 
 func (c *Ctx) c15Run(impl string, scen interface{}, desc string) []byte {
